@@ -44,6 +44,8 @@ void ob_c10b_column_major(const ARR<2,3>& a, const ARR<3>& b)
     { VIEW(v, view::transpose(a)); VIEW(r, na::eval(v, None, None, na::ColumnMajorResolver)); EXPECT_VIEW2("C10.eval.column_major.shape", "C10.eval.column_major.element_at_every_index", r, 3,2, a(j,i), 20); }
     { VIEW(v, view::subtract(a, b)); VIEW(r, na::eval(v, None, None, na::ColumnMajorResolver)); EXPECT_VIEW2("C10.eval.column_major.shape", "C10.eval.column_major.element_at_every_index", r, 2,3, a(i,j) - b(j), 21); }
 }
+// (tried and not stated: a column-major result for an operand with a run-time DIMENSION (bounded shape) - does not fold; such results are
+//  decided at the level of the array object, C20 / C01)
 // (tried and not stated: a rank-3 column-major result and a caller-supplied output - the evaluator's copy loop does not fold there)
 // (not stated: eval of a composed view of depth 3, the step-wise vs one-shot comparison and caller-supplied outputs - the evaluator's copy loop over
 //  a nested view is not folded by LLVM for symbolic elements; that copy loop is decided structurally by rule R-EVAL)
